@@ -242,6 +242,22 @@ def strict_scalar_constrained(doc):
 STRICT = ["str", "int", "float", "bool"]
 
 
+def renamed_members(doc):
+    import keyword
+    names = set()
+
+    def walk(s):
+        if isinstance(s, dict):
+            names.update(s.get("properties") or {})
+            for v in s.values():
+                walk(v)
+        elif isinstance(s, list):
+            for v in s:
+                walk(v)
+    walk(doc)
+    return any((not n.isidentifier()) or keyword.iskeyword(n) or n.startswith("_") or n[0].isupper() for n in names)
+
+
 def required_of_inherited(doc):
     """an allOf whose required list (own or in a sibling branch) names a member declared only in a $ref'd parent"""
     def walk(s):
@@ -278,6 +294,8 @@ def in_known_class(doc, kind, opts):
         return True  # C04-const-required-v1: a required const member gets its value as default in v1-style output
     if nested_constraints(doc, opts):
         return True  # C04-nested-array-constraints / C04-item-constraints-field-constraints
+    if kind == "pydantic.BaseModel" and opts.get("use_annotated") and renamed_members(doc):
+        return True  # C04-v1-annotated-alias-lost: pydantic v1 drops Field(alias=...) inside Annotated when the annotation is a forward reference
     if opts.get("strict_types") and opts.get("field_constraints") and strict_scalar_constrained(doc):
         return True  # C04-strict-types-field-constraints (a scalar's own constraints are dropped with --strict-types + --field-constraints)
     return False
@@ -299,17 +317,34 @@ def composition_sweep(rng):
                "definitions": {"B": {"type": "object", "properties": props}}}
 
 
+def container_sweep():
+    """every scalar item type x item counts on the container x {strict types, strict types + field constraints, plain} x v1/v2"""
+    for t in ("string", "integer", "number", "boolean"):
+        doc = {"title": "Root", "type": "object", "definitions": {}, "required": ["a"],
+               "properties": {"a": {"type": "array", "items": {"type": t}, "minItems": 1, "maxItems": 3},
+                              "m": {"type": "object", "additionalProperties": {"type": t}}}}
+        for kind in ("pydantic_v2.BaseModel", "pydantic.BaseModel"):
+            for opts in ({"strict_types": STRICT}, {"strict_types": STRICT, "field_constraints": True}, {"field_constraints": True}, {}):
+                yield doc, kind, opts
+
+
 def falsify(ctx):
     rng = ctx.rng("fals")
     seen = 0
     sweep = list(composition_sweep(rng))
     if not ctx.thorough:
         sweep = rng.sample(sweep, 24)
+    fixed = list(container_sweep())
+    if not ctx.thorough:
+        fixed = rng.sample(fixed, 12)
+    sweep = fixed + sweep
     for i in range(ctx.n(90, 1500) + len(sweep)):
         doc = sweep[i] if i < len(sweep) else ss.gen_document(rng)
         kind = rng.choice(["pydantic_v2.BaseModel", "pydantic_v2.BaseModel", "pydantic.BaseModel"])
         opts = rng.choice([{}, {}, {"field_constraints": True}, {"field_constraints": True, "use_annotated": True}, {"snake_case_field": True}, {"use_standard_collections": True},
                           {"strict_types": STRICT}, {"strict_types": STRICT, "field_constraints": True}])
+        if isinstance(doc, tuple):
+            doc, kind, opts = doc
         if in_known_class(doc, kind, opts):
             ctx.count("outside_guard")
             continue
